@@ -256,7 +256,24 @@ func replInDomain(r string, groups int) bool {
 	return true
 }
 
-func q(s string) string { return "'" + s + "'" }
+// q writes an XPath 1.0 string literal (no escapes exist: the delimiter is the
+// quote character the text does not contain).
+func q(s string) string {
+	if strings.Contains(s, "'") {
+		return "\"" + s + "\""
+	}
+	return "'" + s + "'"
+}
+
+// quotable: an XPath 1.0 literal cannot hold both quote characters.
+func quotable(ss ...string) bool {
+	for _, s := range ss {
+		if strings.Contains(s, "'") && strings.Contains(s, "\"") {
+			return false
+		}
+	}
+	return true
+}
 
 // regexDoc is the little document regex operations read their operands from.
 func regexDoc(subject, pattern string) *world.Doc {
@@ -275,6 +292,9 @@ func regexDoc(subject, pattern string) *world.Doc {
 // and compares with Go's regexp used directly.
 func (m *cacheModel) opRegex(step int, st scn.Step, owner int32) string {
 	x := m.x
+	if !quotable(st.K, st.S, st.R) || (st.Src == "concat" && !quotable(st.K[:len(st.K)/2], st.K[len(st.K)/2:])) {
+		return "unquotable"
+	}
 	_, cerr := regexp.Compile(st.K)
 	var pat string
 	constant := false
@@ -373,6 +393,9 @@ func (m *cacheModel) opMatchNodes(step int, st scn.Step) string {
 	}
 	var text string
 	var pat func(name string) string
+	if st.N >= 3 {
+		return m.opMatchSelf(step, st)
+	}
 	switch st.N % 3 {
 	case 0:
 		text, pat = "//*[matches(@k, local-name())]", func(n string) string { return n }
@@ -420,6 +443,50 @@ func (m *cacheModel) opMatchNodes(step int, st scn.Step) string {
 	}
 	if got.Key() != want.Key() {
 		x.viol("regex-result", "regex-result:matches-per-node", fmt.Sprintf("Select(%q) = %s, Go regexp applied node by node gives %s", text, clip(got.Key()), clip(want.Key())), step)
+	}
+	return got.Key()
+}
+
+// opMatchSelf: the subject is a self step with a name test, evaluated on every
+// element: //*[matches(self::NAME, P)] selects exactly the elements called NAME
+// whose string value P matches (for the others the subject is the empty
+// node-set). Patterns that match the empty string are not judged: the engine
+// answers "" (a string) for an empty node-set subject, deliberately outside
+// this check (DESIGN 5.4).
+func (m *cacheModel) opMatchSelf(step int, st scn.Step) string {
+	x := m.x
+	re, err := regexp.Compile(st.K)
+	if err != nil || re.MatchString("") || !quotable(st.K) || len(x.docs) == 0 {
+		return "unjudged"
+	}
+	doc := x.docs[0]
+	name := "a"
+	for _, n := range doc.Nodes {
+		if n.Kind == xpath.ElementNode && n.Parent != nil && n.Parent.Kind == xpath.ElementNode {
+			name = n.Local
+			if st.N == 4 {
+				break
+			}
+		}
+	}
+	text := "//*[matches(self::" + name + ", " + q(st.K) + ")]"
+	ex, co := compile(text)
+	if ex == nil {
+		x.viol("regex-compile", "regex-compile", fmt.Sprintf("Compile(%q) failed: %s", text, co.Key()), step)
+		return "cerr"
+	}
+	got := selectAll(ex, world.NewNav(doc, 0, -1), 0)
+	want := Outcome{Kind: "nodes", IDs: []int{}}
+	for _, n := range doc.Nodes {
+		if n.Kind == xpath.ElementNode && n.Local == name && n.Prefix == "" {
+			v := world.NewNav(doc, n.ID, -1).Value()
+			if re.MatchString(v) {
+				want.IDs = append(want.IDs, n.ID)
+			}
+		}
+	}
+	if got.Key() != want.Key() {
+		x.viol("regex-result", "regex-result:matches-self-subject", fmt.Sprintf("Select(%q) = %s, Go regexp applied node by node gives %s", text, clip(got.Key()), clip(want.Key())), step)
 	}
 	return got.Key()
 }
